@@ -91,6 +91,20 @@ type witness struct {
 	AfterOps  int      `json:"ops_executed"`
 }
 
+// layerKind strips the instance number of a lower layer ("shard-2" -> "shard").
+func layerKind(l string) string {
+	if i := strings.LastIndexByte(l, '-'); i > 0 && i+1 < len(l) {
+		digits := true
+		for _, ch := range l[i+1:] {
+			digits = digits && ch >= '0' && ch <= '9'
+		}
+		if digits {
+			return l[:i]
+		}
+	}
+	return l
+}
+
 func caseID(def *backendDef, idx int) string { return fmt.Sprintf("%s#%d;", def.Name, idx) }
 
 func splitSig(sig string) (class, op string) {
@@ -373,7 +387,7 @@ func (rn *runner) runOnce(st *site) (res siteResult, lr *learned, fatal error) {
 				// a single fault names itself; a burst is named after its last delivered fault (the one
 				// the operation did not get past), marked ~burst
 				d := res.delivered[len(res.delivered)-1]
-				cause = fmt.Sprintf("%s.%s:%s", d.Layer, d.Op, d.Mode)
+				cause = fmt.Sprintf("%s.%s:%s", layerKind(d.Layer), d.Op, d.Mode)
 				if st.Burst && len(res.delivered) > 1 {
 					cause += "~burst"
 				}
